@@ -152,10 +152,14 @@ func loadCPIX(cfgFile string) (map[string]*cpixPkg, error) {
 				Type string
 			}{kid, attr(mm[1], "intendedTrackType")})
 		}
-		out[p.Name] = pk
+		out[p.Name] = pk // a name listed twice: the last entry (drm.DrmConfig.Map semantics)
+		cpixAll[p.Name] = append(cpixAll[p.Name], pk)
 	}
 	return out, nil
 }
+
+// every entry of every configuration read, by package name (a name may be listed more than once)
+var cpixAll = map[string][]*cpixPkg{}
 
 // writeGenDrmConfig writes a DRM configuration with generated CPIX packages and returns its path.
 func writeGenDrmConfig(dir string, seed int64) (string, error) {
@@ -189,6 +193,18 @@ func writeGenDrmConfig(dir string, seed int64) (string, error) {
 		// explicitIV on one track type only
 		pkgs = append(pkgs, gp{name: "gen-2keys-" + scheme + "-iv-video-only", keys: []gk{{rb(16), rb(16), rb(16), scheme, "VIDEO"}, {rb(16), rb(16), nil, scheme, "AUDIO"}}})
 	}
+	// the same package name listed two and three times with different keys (key rotation leftovers),
+	// two packages sharing one key id with different keys, one package listing a key twice
+	for i := 0; i < 2; i++ {
+		pkgs = append(pkgs, gp{name: "gen-dup-name", keys: []gk{{rb(16), rb(16), rb(16), "cbcs", ""}}})
+	}
+	for i := 0; i < 3; i++ {
+		pkgs = append(pkgs, gp{name: "gen-dup-name-2keys", swap: i == 1, keys: []gk{{rb(16), rb(16), rb(16), "cenc", "VIDEO"}, {rb(16), rb(16), rb(16), "cenc", "AUDIO"}}})
+	}
+	shared := rb(16)
+	pkgs = append(pkgs, gp{name: "gen-same-kid-a", keys: []gk{{shared, rb(16), rb(16), "cbcs", ""}}}, gp{name: "gen-same-kid-b", keys: []gk{{shared, rb(16), rb(16), "cbcs", ""}}})
+	twice := gk{rb(16), rb(16), rb(16), "cbcs", "VIDEO"}
+	pkgs = append(pkgs, gp{name: "gen-key-listed-twice", keys: []gk{twice, twice, {rb(16), rb(16), rb(16), "cbcs", "AUDIO"}}})
 	// one scheme per track type
 	pkgs = append(pkgs, gp{name: "gen-2keys-video-cbcs-audio-cenc", swap: true, keys: []gk{{rb(16), rb(16), rb(16), "cbcs", "VIDEO"}, {rb(16), rb(16), rb(16), "cenc", "AUDIO"}}})
 	type jp struct {
@@ -226,7 +242,7 @@ func writeGenDrmConfig(dir string, seed int64) (string, error) {
 			}
 		}
 		sb.WriteString(" </cpix:ContentKeyUsageRuleList>\n</cpix:CPIX>\n")
-		file := p.name + ".xml"
+		file := fmt.Sprintf("%s-%d.xml", p.name, len(cfg.Packages))
 		if err := os.WriteFile(filepath.Join(dir, file), []byte(sb.String()), 0o644); err != nil {
 			return "", err
 		}
@@ -320,6 +336,15 @@ func newEnv(scratch string, seed int64) (*env, error) {
 		}
 		sort.Strings(e.genPkgs)
 	}
+	// copy of testpic_2s whose stored segments carry a 64-bit (version 1) tfdt although their times are small
+	if err := buildTfdt64(filepath.Join(lib.TestVodRoot, "testpic_2s"), filepath.Join(scratch, "vod", "testpic_2s_tfdt64")); err != nil {
+		e.notes = append(e.notes, "tfdt64 scratch asset: "+err.Error())
+	} else if src := e.assets["testpic_2s"]; src != nil {
+		cp := *src
+		cp.Path = "testpic_2s_tfdt64"
+		e.assets[cp.Path] = &cp
+		e.segDur[cp.Path] = e.segDur["testpic_2s"]
+	}
 	// pre-encrypted copy of testpic_2s
 	if err := buildPreEncrypted(filepath.Join(lib.TestVodRoot, "testpic_2s"), filepath.Join(scratch, "vod", "testpic_2s_pre")); err != nil {
 		e.preErr = err.Error()
@@ -327,8 +352,58 @@ func newEnv(scratch string, seed int64) (*env, error) {
 		e.preErr = err.Error()
 	} else {
 		e.pre = pre
+		e.servers["scratch"] = pre
 	}
 	return e, nil
+}
+
+// buildTfdt64 copies an asset; every stored media segment gets a version-1 (64-bit) tfdt box.
+func buildTfdt64(src, dst string) error {
+	mpd, err := os.ReadFile(filepath.Join(src, "Manifest.mpd"))
+	if err != nil {
+		return err
+	}
+	if err := os.MkdirAll(dst, 0o755); err != nil {
+		return err
+	}
+	if err := os.WriteFile(filepath.Join(dst, "Manifest.mpd"), mpd, 0o644); err != nil {
+		return err
+	}
+	for _, rep := range []string{"V300", "A48"} {
+		if err := os.MkdirAll(filepath.Join(dst, rep), 0o755); err != nil {
+			return err
+		}
+		raw, err := os.ReadFile(filepath.Join(src, rep, "init.mp4"))
+		if err != nil {
+			return err
+		}
+		if err := os.WriteFile(filepath.Join(dst, rep, "init.mp4"), raw, 0o644); err != nil {
+			return err
+		}
+		for n := 1; n <= 4; n++ {
+			raw, err := os.ReadFile(filepath.Join(src, rep, fmt.Sprintf("%d.m4s", n)))
+			if err != nil {
+				return err
+			}
+			sf, err := mp4.DecodeFile(bytes.NewReader(raw))
+			if err != nil {
+				return err
+			}
+			var sb bytes.Buffer
+			for _, s := range sf.Segments {
+				for _, fr := range s.Fragments {
+					fr.Moof.Traf.Tfdt.Version = 1
+				}
+				if err := s.Encode(&sb); err != nil {
+					return err
+				}
+			}
+			if err := os.WriteFile(filepath.Join(dst, rep, fmt.Sprintf("%d.m4s", n)), sb.Bytes(), 0o644); err != nil {
+				return err
+			}
+		}
+	}
+	return nil
 }
 
 var preKID = []byte{0x11, 0x22, 0x33, 0x44, 0x55, 0x66, 0x77, 0x88, 0x99, 0xaa, 0xbb, 0xcc, 0xdd, 0xee, 0xff, 0x00}
@@ -654,8 +729,15 @@ func (e *env) runSeg(in c10in) (o segObs) {
 			}
 		}
 	case strings.HasPrefix(in.DRM, "drm_"):
-		if pk := e.cpix[strings.TrimPrefix(in.DRM, "drm_")]; pk != nil {
-			kidBytes, _ := hex.DecodeString(strings.ReplaceAll(o.MPDKid, "-", ""))
+		name := strings.TrimPrefix(in.DRM, "drm_")
+		kidBytes, _ := hex.DecodeString(strings.ReplaceAll(o.MPDKid, "-", ""))
+		// the key of the announced id: in the entry the server uses for that name (the last one) or,
+		// failing that, in any other entry of that name
+		all := append([]*cpixPkg{}, cpixAll[name]...)
+		if pk := e.cpix[name]; pk != nil {
+			all = append(all, pk)
+		}
+		for _, pk := range all {
 			for _, k := range pk.Keys {
 				if bytes.Equal(k.KID, kidBytes) {
 					o.Key, o.KeySource = k.Key, "cpix"
@@ -1344,6 +1426,29 @@ func (e *env) generate(rng *rand.Rand, c *lib.Ctx) []c10in {
 							in.Ato = "1"
 						}
 						add("seg-generated-package:"+n, in)
+					}
+				}
+			}
+		}
+	}
+	// ---- stored segments with a 64-bit tfdt requested near the start of the timeline (the live tfdt is
+	// 32-bit there: the box shrinks) and far from it: the protected variant of a served clear segment
+	if e.servers["scratch"] != nil && e.assets["testpic_2s_tfdt64"] != nil {
+		a := e.assets["testpic_2s_tfdt64"]
+		ref := a.Ref()
+		for _, d := range drms {
+			for _, rp := range []struct{ id, ct string }{{"V300", "video"}, {"A48", "audio"}} {
+				for _, sg := range []int64{1 + rng.Int63n(20), 100 + rng.Int63n(20000), 30000 + rng.Int63n(400000000)} {
+					for _, ch := range []bool{false, true} {
+						if !c.Thorough() && ch && sg > 30000 {
+							continue
+						}
+						in := c10in{Kind: "seg", Asset: a.Path, Rep: rp.id, CType: rp.ct, DRM: d, Seg: sg, Chunked: ch, Mode: "number", Server: "scratch"}
+						in.NowMS = ref.LoopE(sg)*1000/ref.Timescale + 2000 + 1000 + rng.Int63n(20000)
+						if ch {
+							in.Ato = "1"
+						}
+						add("seg-tfdt64:"+d, in)
 					}
 				}
 			}
